@@ -11,6 +11,7 @@ import (
 	"testing"
 	"time"
 
+	header "github.com/celestiaorg/go-header"
 	hsync "github.com/celestiaorg/go-header/sync"
 
 	"verifharness/mon"
@@ -30,12 +31,12 @@ type synStep struct {
 }
 
 type synP struct {
-	R      uint64    `json:"r"`     // trust range (0 = unlimited)
-	Store  int       `json:"store"` // initial store head (tail 1)
-	Lag    int       `json:"lag"`   // network tip is Store+Lag at start
-	Steps  []synStep `json:"steps"`
-	Sched  uint64    `json:"sched"` // PRNG seed for yield-point delays (0 = off)
-	TPMin  int       `json:"tp_min"`
+	R     uint64    `json:"r"`     // trust range (0 = unlimited)
+	Store int       `json:"store"` // initial store head (tail 1)
+	Lag   int       `json:"lag"`   // network tip is Store+Lag at start
+	Steps []synStep `json:"steps"`
+	Sched uint64    `json:"sched"` // PRNG seed for yield-point delays (0 = off)
+	TPMin int       `json:"tp_min"`
 }
 
 const synBT = time.Second
@@ -45,23 +46,26 @@ var synHooks = []string{"sync.syncStore.Append.beforeStore", "sync.setLocalHead.
 var errGetter = errors.New("syn: getter fault")
 
 type synObs struct {
-	accepted   []H      // deliveries the verifier accepted
+	accepted    []H // deliveries the verifier accepted
 	badAccepted []string
-	heads      []H      // successful Syncer.Head() results
+	heads       []H // successful Syncer.Head() results
 	maxVerified uint64
-	errorSeen  bool     // State().Error was non-empty at some quiescent point after a getter error
-	classes    []string
+	errorSeen   bool // State().Error was non-empty at some quiescent point after a getter error
+	classes     []string
+	tainted     bool
+	stepBase    int // index offset of the chunk being run
+	lastLearned int // global index of the last step in which a head above everything known was learned
 }
 
 type synWorld struct {
 	*world
-	chain  *vh.Chain
-	epoch  time.Time
-	total  int
-	s0     int
-	mode   string
-	mmu    sync.Mutex
-	ctl    *sched.Ctl
+	chain *vh.Chain
+	epoch time.Time
+	total int
+	s0    int
+	mode  string
+	mmu   sync.Mutex
+	ctl   *sched.Ctl
 }
 
 func (sw *synWorld) tipNow() uint64 {
@@ -133,6 +137,9 @@ func (sw *synWorld) runSteps(p synP, obs *synObs) {
 		err := sw.sub.deliver(ctx, h)
 		cancel()
 		c.Count("deliveries", 1)
+		if err == nil && h.Time().After(time.Now().Add(header.VerifClockDrift())) {
+			c.Violation("future-header-accepted/kind="+kind, fmt.Sprintf("header %v is %v ahead of the local clock (drift allowance %v) but was accepted", h, time.Until(h.Time()), header.VerifClockDrift()), nil)
+		}
 		if err == nil {
 			sw.mmu.Lock()
 			obs.accepted = append(obs.accepted, h)
@@ -154,12 +161,14 @@ func (sw *synWorld) runSteps(p synP, obs *synObs) {
 		if height > uint64(sw.total) {
 			height = uint64(sw.total)
 		}
-		if kind == "canonical" {
+		if kind == "canonical" || kind == "canonical-ahead" {
 			return sw.chain.At(height)
 		}
 		return sw.chain.Variant(kind, height, salt)
 	}
 	for i, st := range p.Steps {
+		before := obs.maxVerified
+		defer func() {}()
 		switch st.Op {
 		case "sleep":
 			time.Sleep(time.Duration(st.Ms) * time.Millisecond)
@@ -167,7 +176,7 @@ func (sw *synWorld) runSteps(p synP, obs *synObs) {
 			sw.setMode(st.Mode)
 			obs.classes = append(obs.classes, "getter:"+st.Mode)
 		case "quiesce":
-			quiesce()
+			sw.settle()
 			if sw.syn.State().Error != "" {
 				obs.errorSeen = true
 			}
@@ -189,8 +198,54 @@ func (sw *synWorld) runSteps(p synP, obs *synObs) {
 			obs.classes = append(obs.classes, fmt.Sprintf("head:%v", err == nil))
 		case "gossip":
 			hh := int64(sw.tipNow()) + int64(st.DH)
+			if st.Kind == "canonical-ahead" {
+				hh = int64(sw.tipNow()) + 4 + int64((st.DH+5)*2) // 4..20 block times ahead of the clock
+			}
 			deliver(mk(st.Kind, uint64(max(hh, 1)), uint64(i)), st.Kind)
 			obs.classes = append(obs.classes, "gossip:"+st.Kind)
+		case "timewarp":
+			// two concurrent deliveries: A = canonical tip+1 and B = signed header at tip+2 linked to A but dated
+			// before A. B verifies against the old head (non-adjacent), not against A (unordered time): whatever
+			// the order, at most one of them can be accepted.
+			tip := sw.tipNow()
+			a, b := mk("canonical", tip+1, 0), mk(vh.VTimewarp, tip+2, uint64(i))
+			if sw.ctl != nil {
+				sw.ctl.Pause()
+			}
+			var wg sync.WaitGroup
+			var ea, eb error
+			wg.Add(2)
+			go func() {
+				defer wg.Done()
+				ctx, cancel := context.WithTimeout(context.Background(), time.Minute)
+				ea = sw.sub.deliver(ctx, a)
+				cancel()
+			}()
+			go func() {
+				defer wg.Done()
+				ctx, cancel := context.WithTimeout(context.Background(), time.Minute)
+				eb = sw.sub.deliver(ctx, b)
+				cancel()
+			}()
+			wg.Wait()
+			if sw.ctl != nil {
+				sw.ctl.Resume()
+			}
+			c.Count("deliveries", 2)
+			c.Count("timewarp_pairs", 1)
+			if ea == nil && eb == nil {
+				c.Violation("conflicting-heads-both-accepted", fmt.Sprintf("%v and %v were both accepted although the second does not verify against the first", a, b), nil)
+			}
+			if ea == nil {
+				sw.mmu.Lock()
+				obs.maxVerified = max(obs.maxVerified, a.Height())
+				sw.mmu.Unlock()
+			}
+			obs.classes = append(obs.classes, fmt.Sprintf("timewarp:%v:%v", ea == nil, eb == nil))
+			if eb == nil {
+				obs.tainted = true // B was legitimately adopted non-adjacently: the canonical-only oracles no longer apply
+				return
+			}
 		case "burst":
 			tip := sw.tipNow()
 			if sw.ctl != nil {
@@ -215,6 +270,9 @@ func (sw *synWorld) runSteps(p synP, obs *synObs) {
 			}
 			obs.classes = append(obs.classes, fmt.Sprintf("burst:%d:%s", st.N, st.Kind))
 		}
+		if obs.maxVerified > before {
+			obs.lastLearned = obs.stepBase + i
+		}
 		if st := sw.syn.State(); len(st.ToHash) > 0 && sw.chain.ByHash(st.ToHash) == nil {
 			c.Violation("sync-target-non-canonical", fmt.Sprintf("State().ToHash %X (height %d) is not a canonical header", []byte(st.ToHash), st.ToHeight), nil)
 		}
@@ -236,7 +294,7 @@ func (sw *synWorld) startSyncer(p synP) bool {
 	return true
 }
 
-var gossipKinds = []string{"canonical", "canonical", "canonical", vh.VForgedRightLink, vh.VForgedWrongLink, vh.VWrongChain, vh.VFarFuture, vh.VBeforeGenesis}
+var gossipKinds = []string{"canonical", "canonical", "canonical", "canonical-ahead", vh.VForgedRightLink, vh.VForgedWrongLink, vh.VWrongChain, vh.VFarFuture, vh.VBeforeGenesis}
 
 // ---- C03 ----
 
@@ -251,8 +309,10 @@ func TestC03(t *testing.T) {
 			switch x := rng.Intn(20); {
 			case x < 9:
 				p.Steps = append(p.Steps, synStep{Op: "gossip", Kind: gossipKinds[rng.Intn(len(gossipKinds))], DH: rng.Intn(9) - 5})
-			case x < 11:
+			case x < 10:
 				p.Steps = append(p.Steps, synStep{Op: "burst", N: 2 + rng.Intn(2), Kind: []string{"", vh.VForgedRightLink, vh.VWrongChain}[rng.Intn(3)]})
+			case x < 11:
+				p.Steps = append(p.Steps, synStep{Op: "timewarp"})
 			case x < 13:
 				p.Steps = append(p.Steps, synStep{Op: "head"})
 			case x < 16:
@@ -284,10 +344,13 @@ func c03Run(c *mon.Case, p synP) {
 			return
 		}
 		obs := &synObs{}
+		sw.tolerateBad = func(h H) bool { return h != nil && h.Signed && h.Chain == sw.chain.ID && obs.tainted }
 		sw.runSteps(p, obs)
 		sw.setMode("ok")
-		quiesce()
-		sw.storeCheck("quiescent")
+		sw.settle()
+		if !obs.tainted {
+			sw.storeCheck("quiescent")
+		}
 		for _, pt := range synHooks {
 			c.Count("hook:"+pt, ctl.Hits()[pt])
 		}
@@ -362,7 +425,7 @@ func c07Run(c *mon.Case, p synP) {
 		if !sw.startSyncer(p) {
 			return
 		}
-		obs := &synObs{}
+		obs := &synObs{lastLearned: -1}
 		// Start itself learned the network head
 		if h, err := sw.syn.Head(context.Background()); err == nil {
 			obs.maxVerified = h.Height()
@@ -384,7 +447,7 @@ func c07Run(c *mon.Case, p synP) {
 			n := 0
 			for n < len(steps) && steps[n].Op != "quiesce" {
 				if steps[n].Op == "getter" && steps[n].Mode == "error" && !errPhase {
-					quiesce()
+					sw.settle()
 					errPhase = true
 					loBefore, hiBefore = stored()
 				}
@@ -393,6 +456,7 @@ func c07Run(c *mon.Case, p synP) {
 			chunk := steps[:min(n+1, len(steps))]
 			steps = steps[len(chunk):]
 			sw.runSteps(synP{Steps: chunk}, obs)
+			obs.stepBase += len(chunk)
 			if errPhase && len(chunk) > 0 && chunk[len(chunk)-1].Op == "quiesce" {
 				// a getter error aborted the attempt: it must be reported and nothing partial lost
 				st := sw.syn.State()
@@ -407,11 +471,33 @@ func c07Run(c *mon.Case, p synP) {
 				errPhase = false
 			}
 		}
+		// heads learned while the getter serves (also during a running sync) must be synced without any
+		// further head arriving
+		lastErr := -1
+		for i, st := range p.Steps {
+			if st.Op == "getter" && st.Mode == "error" {
+				lastErr = i
+			}
+		}
+		servingSince := -1
+		for i, st := range p.Steps {
+			if st.Op == "getter" && st.Mode != "error" && i > lastErr && servingSince < 0 {
+				servingSince = i
+			}
+		}
+		lastHead := obs.lastLearned
+		if lastHead >= 0 && servingSince >= 0 && servingSince < lastHead {
+			sw.settle()
+			if h, err := sw.st.Head(context.Background()); err != nil || h.Height() < obs.maxVerified {
+				c.Violation("head-learned-during-sync-not-synced", fmt.Sprintf("highest verified head %d, store head %v (%v) at quiescence although the getter has been serving (since step %d) before that head was learned (step %d); state %+v", obs.maxVerified, h, err, servingSince, lastHead, sw.syn.State()), map[string]any{"getter_calls_tail": tailCalls(sw.g.Calls(""), 12), "now": time.Since(sw.epoch).String()})
+			}
+			c.Count("checked_without_extra_head", 1)
+		}
 		// final: the getter serves, one more head is learned, everything must complete
 		sw.setMode("ok")
 		time.Sleep(1200 * time.Millisecond)
 		sw.runSteps(synP{Steps: []synStep{{Op: "gossip", Kind: "canonical"}, {Op: "head"}}}, obs)
-		quiesce()
+		sw.settle()
 		target := obs.maxVerified
 		c.Count("targets", 1)
 		h, err := sw.st.Head(context.Background())
@@ -448,4 +534,12 @@ func c07Run(c *mon.Case, p synP) {
 		sortStrings(ks)
 		c.Class("lag=%s errs=%v events=%s", bucket(uint64(p.Lag)), obs.errorSeen, strings.Join(ks, ","))
 	})
+}
+
+func tailCalls(cs []getCall, n int) []string {
+	var out []string
+	for _, c := range cs[max(0, len(cs)-n):] {
+		out = append(out, fmt.Sprintf("%v %s h=%d to=%d trusted=%d err=%v n=%d", c.At, c.Kind, c.Height, c.To, c.Trusted, c.Err, c.N))
+	}
+	return out
 }
